@@ -1127,6 +1127,18 @@ def timeout_system_scenarios(W):
                     steps += [{"op": "tick", "d": 40}, dict(app), {"op": "tick", "d": 40}, dict(app), {"op": "tick", "d": 40}, dict(app)]
                 res.append({"id": "c10sys/%s/a%d-i%d/%s" % (st, a, i, pattern), "cfg": {"filters": [dict(F1, store=st, abs=a, idle=i)]}, "steps": steps})
                 k += 1
+    # the login itself takes longer than the limits allow (the user sits at the provider's page), with and without a Redis
+    # command of the redirect's store call failing: a login state that was handed out is bound by the timeouts too
+    for st in ("memory", "redis"):
+        for (a, i) in [(300, 0), (0, 100), (300, 100)]:
+            for fault in ((None,) if st == "memory" else (None, "cmd1", "cmd2", "cmd3", "cmd4", "cmd5")):
+                first = {"op": "check", "b": "b1", "f": "f1", "kind": "app", "cookie": "none", "url": 1, "ans": long}
+                if fault:
+                    first["dirs"] = {"0": {"fault": fault}}
+                steps = [first, {"op": "tick", "d": 450}, {"op": "authz", "b": "b1", "f": "f1"},
+                         {"op": "check", "b": "b1", "f": "f1", "kind": "callback", "cookie": "jar", "st": "jar", "code": "jar", "qshape": "ok", "ans": long},
+                         {"op": "check", "b": "b1", "f": "f1", "kind": "app", "cookie": "jar", "url": 1, "ans": long}]
+                res.append({"id": "c10sys/%s/a%d-i%d/slowLogin%s" % (st, a, i, "/" + fault if fault else ""), "cfg": {"filters": [dict(F1, store=st, abs=a, idle=i)]}, "steps": steps})
     return res
 
 
